@@ -44,6 +44,7 @@ type step struct {
 	OutName string  `json:"outcome"`
 	Adv     string  `json:"advance"` // due | notdue | +35s | +65s | none
 	Mode    string  `json:"mode"`    // tick | forced | proxyfail
+	List    string  `json:"listing"` // ok | 500 | garbage: what the model listing answers at this step
 }
 
 // reference state; f and (f,mult) uncertainty after proxy-detected failures is carried as a set
@@ -52,14 +53,14 @@ type refState struct {
 }
 
 type ref struct {
-	I         time.Duration
-	status    string
-	fset      map[int]bool // possible values of f
-	last      float64      // sim seconds
-	next      float64
-	delayAny  bool // last delay is unspecified (after a proxy failure)
-	delay     map[float64]bool
-	listings  int64
+	I        time.Duration
+	status   string
+	fset     map[int]bool // possible values of f
+	last     float64      // sim seconds
+	next     float64
+	delayAny bool // last delay is unspecified (after a proxy failure)
+	delay    map[float64]bool
+	listings int64
 	// health breaker A.1
 	bFails    int
 	bOpen     bool
@@ -244,6 +245,7 @@ func oneHistory(run *rep.Run, rng *rand.Rand, h, nsteps int) {
 			}
 		}
 		st.OutName = outcomeNames[st.Out]
+		st.List = []string{"ok", "ok", "ok", "500", "garbage"}[rng.Intn(5)]
 		// time advance, kept clear of thresholds
 		now := simNow()
 		var d float64
@@ -333,6 +335,16 @@ func oneHistory(run *rep.Run, rng *rand.Rand, h, nsteps int) {
 		}
 
 		setOutcome(st.Out)
+		// what the model listing answers at this step (a recovery must fetch it exactly once
+		// whatever it answers, and a failed refresh must not affect later recoveries)
+		switch st.List {
+		case "500":
+			b.SetModelsRaw(500, []byte(`{"error":"listing unavailable"}`))
+		case "garbage":
+			b.SetModelsRaw(200, []byte(`{"models":[{"name":`))
+		default:
+			b.SetModelsRaw(0, nil)
+		}
 		due := now >= r.next
 		if st.Mode == "forced" {
 			due = true
@@ -454,6 +466,7 @@ func oneHistory(run *rep.Run, rng *rand.Rand, h, nsteps int) {
 		// recovery -> exactly one listing fetch
 		if want == "healthy" && prevStatus != "healthy" {
 			run.Count("recoveries_observed", 1)
+			run.Count("recoveries_with_listing_"+st.List, 1)
 			ok := false
 			for i := 0; i < 300; i++ {
 				if b.ModelsHits.Load() >= lists0+1 {
@@ -489,7 +502,7 @@ func oneHistory(run *rep.Run, rng *rand.Rand, h, nsteps int) {
 	run.Max("max_sim_gap_between_real_probes_s", int64(maxGap))
 	var sb strings.Builder
 	for _, s := range trace {
-		sb.WriteString(s.OutName + "/" + s.Adv + "/" + s.Mode + " ")
+		sb.WriteString(s.OutName + "/" + s.Adv + "/" + s.Mode + "/" + s.List + " ")
 	}
 	run.Eval(I.String() + ":" + sb.String())
 	if h < 3 {
